@@ -200,10 +200,16 @@ class _Refs:
         return self.models[k]
 
     def answer(self, obj_key, obj, env, q):
+        """The reference's answer to q is that of a *pristine* fitted object: every query is put to its own deep
+        copy, so that a query with a side effect cannot poison the reference the way it poisons the live object."""
         k = self._key(obj_key, q)
         if k not in self.answers:
             with core.reference_context():
-                out = oracle.capture(lambda: oracle.materialise(models.run_query(self.spec, obj, q, env)))
+                try:
+                    pristine = copy.deepcopy(obj)
+                except Exception:          # not copyable: fall back to the shared reference object
+                    pristine = obj
+                out = oracle.capture(lambda: oracle.materialise(models.run_query(self.spec, pristine, q, env)))
             self.answers[k] = out
         return self.answers[k]
 
